@@ -172,7 +172,10 @@ func runPairCase(r *fw.Run, p *Pair, prop string, c *pairCase, framing bool) int
 		}
 		r.Count("calls", 1)
 	}
-	conn.Close()
+	if !closeBounded(conn, 15*time.Second) {
+		report("close-hangs", "Connection.Close did not return within 15 s")
+		return viol
+	}
 	// what the handler read
 	pcs := p.Proxy.TakeConns()
 	if len(pcs) != 1 {
@@ -263,6 +266,62 @@ func c02DeadlineThenPause(r *fw.Run, p *Pair, tr string, k int) {
 	r.Case(fw.Hash("dlpause", tr, fmt.Sprint(k)), true)
 }
 
+// closeBounded closes a client connection; false if Close did not return within the bound.
+func closeBounded(conn *varlink.Connection, bound time.Duration) bool {
+	ch := make(chan struct{})
+	go func() { conn.Close(); close(ch) }()
+	select {
+	case <-ch:
+		return true
+	case <-time.After(bound):
+		return false
+	}
+}
+
+// c03LateRead: the service replies and then ends the connection (its handler returns an error); a client that reads
+// a little late must still get the reply - on every transport, also when the bridge process has already exited.
+func c03LateRead(r *fw.Run, p *Pair, k int) {
+	cs := map[string]interface{}{"what": "reply, then the service closes; the client reads late", "transport": p.Transport}
+	p.Proxy.TakeConns()
+	p.Rig.Log.Take()
+	p.Proxy.Reseg = 0
+	ctx, cancel := context.WithTimeout(context.Background(), 20*time.Second)
+	defer cancel()
+	conn, err := p.Connect(ctx)
+	if err != nil {
+		r.Inconclusive("connect: %v", err)
+		return
+	}
+	want := fmt.Sprintf(`{"last":"words %d","n":12345678901234567890}`, k)
+	sc := &CallScript{ID: fmt.Sprintf("late%d", k), Fail: true, Steps: []Step{{Op: "reply", Cont: true, Raw: json.RawMessage(`{"i":0}`)}, {Op: "reply", Raw: json.RawMessage(want)}}}
+	recv, err := conn.Send(ctx, pairMethod, sc, varlink.More)
+	if err != nil {
+		r.Violation("C03 send-failed", fmt.Sprintf("transport %s: %v", p.Transport, err), cs)
+		closeBounded(conn, 15*time.Second)
+		return
+	}
+	time.Sleep(time.Duration(20+10*(k%4)) * time.Millisecond)
+	for i, w := range []string{`{"i":0}`, want} {
+		var out json.RawMessage
+		fl, err := recv(ctx, &out)
+		if err != nil {
+			r.Violation("C03 reply-lost-when-peer-closed", fmt.Sprintf("transport %s: the handler sent 2 replies and then ended the connection; the client read %d ms later and reply %d failed with %T %v", p.Transport, 20+10*(k%4), i, err, err), cs)
+			break
+		}
+		if d := jEqualParams([]byte(w), out); d != "" {
+			r.Violation("C03 reply-parameters-changed", fmt.Sprintf("transport %s: late read, reply %d: %s", p.Transport, i, d), cs)
+		}
+		if (fl&varlink.Continues != 0) != (i == 0) {
+			r.Violation("C03 continues-indication", fmt.Sprintf("transport %s: late read, reply %d: flags %d", p.Transport, i, fl), cs)
+		}
+	}
+	if !closeBounded(conn, 15*time.Second) {
+		r.Violation("C03 close-hangs", fmt.Sprintf("transport %s: Connection.Close did not return within 15 s", p.Transport), cs)
+	}
+	r.Count("late_reads_after_service_close", 1)
+	r.Case(fw.Hash("late", p.Transport, fmt.Sprint(k)), true)
+}
+
 func genPairCalls(rng *rand.Rand, jg *JGen, tag string, n int, depth int) []PairCall {
 	var out []PairCall
 	for i := 0; i < n; i++ {
@@ -316,6 +375,9 @@ func runC03(r *fw.Run) {
 			if k%50 == 0 {
 				r.Sample(c)
 			}
+		}
+		for k := 0; k < r.Pick(12, 100) && r.ViolationCount() <= 12; k++ {
+			c03LateRead(r, p, k)
 		}
 		r.Distinct("transports", tr)
 		if err, ok := p.Close(); !ok {
